@@ -182,4 +182,34 @@ def Schema.WF (S : Schema) : Prop := S.wf = true
 
 instance (S : Schema) : Decidable S.WF := inferInstanceAs (Decidable (_ = true))
 
+/-! ## Tag ↔ variant dispatch of the hand-written readers and writers (generated: `Generated/Dispatch.lean`) -/
+
+/-- one `match` arm: a reader arm goes from `tags` (string literals / enum paths in the pattern or guard) to the
+    `variants` of the value enum constructed in its body; a writer arm from the `variants` in its pattern to the
+    `tags` occurring in its body -/
+structure Arm where
+  func : String
+  tags : List String
+  variants : List String
+  deriving Repr, DecidableEq, Inhabited
+
+structure Dispatch where
+  valueEnum : String
+  variants : List String
+  reader : List Arm
+  writer : List Arm
+  deriving Repr, Inhabited
+
+/-- every tag under which a reader arm constructs variant `v` is emitted by a writer arm that takes `v` apart —
+    unless no writer arm mentions `v` with a tag at all (the variant is not writable, or written without a tag) -/
+def Dispatch.consistent (D : Dispatch) : Bool :=
+  D.reader.all fun ra =>
+    ra.variants.all fun v =>
+      let was := D.writer.filter fun wa => wa.variants.contains v
+      was.isEmpty || was.any fun wa => ra.tags.all wa.tags.contains
+
+/-- the variants are declared variants of the enum -/
+def Dispatch.wellScoped (D : Dispatch) : Bool :=
+  (D.reader ++ D.writer).all fun a => a.variants.all D.variants.contains
+
 end Derive
